@@ -24,7 +24,8 @@ for r in res:
             bad.append(r["name"])
 print(len(res), "scenarios; guards:", dict(g))
 print("lease environment holds on", envok, "traces,", envok_flag, "of them with a claim; contradicting the theorem:", bad[:5])
-nT = [r for r in res if r.get("envt_first") == -1]
+nT = [r for r in res if r.get("envc_first") == -1]
+print("of the traces in the fast-store environment,", sum(1 for r in nT if not r["guards"] and r.get("envt_first") != -1), "outside envT (contradiction if > 0)")
 print("timed environment holds on", len(nT), "traces;", sum(1 for r in nT if r["env_first"] != -1), "of them outside the untimed environment;",
       "with 201/202:", [r["name"] for r in nT if any(c in (201, 202) for _, c in r["alarms"])][:5])
 import collections as _c
